@@ -10,8 +10,8 @@
    histories whose typed names satisfy `tn_wf` (authority non-empty, no '/' in namespace and name, name
    segments [A-Za-z][0-9A-Za-z_]* — outside it Go's TypedName.Parts panics with InvalidCharactersInName). *)
 From Coq Require Import NArith Bool List.
-From PcoreV Require Import Model.Base Model.Loader Model.LoaderSpec Model.LoaderAdd Proofs.LoaderNames Proofs.LoaderProofs
-  Proofs.LoaderCorollaries Proofs.LoaderAddProofs Proofs.LoaderAddScoped Proofs.LoaderAddCorollaries.
+From PcoreV Require Import Model.Base Model.Loader Model.LoaderSpec Model.LoaderAdd Model.LoaderCtx Proofs.LoaderNames Proofs.LoaderProofs
+  Proofs.LoaderCorollaries Proofs.LoaderAddProofs Proofs.LoaderAddScoped Proofs.LoaderAddCorollaries Proofs.LoaderCtxProofs.
 Import ListNotations.
 
 (* Refinement: for EVERY history of construct / define / load / load-entry / get-entry / has-entry / discover
@@ -159,8 +159,9 @@ Theorem C12_addtypes_embeds :
 Proof. exact xrun_embed. Qed.
 Print Assumptions C12_addtypes_embeds.
 
-(* px.AddTypes ends normally or with AttemptToRedefine / AttemptToRedefineType: no runtime fault, never stuck, no
-   other error; the other operations as in C12_no_fault *)
+(* px.AddTypes ends normally, with AttemptToRedefine / AttemptToRedefineType, or with the reported error by which the
+   resolution of one of its types was rejected (EOther; only when the types contain such a one): no runtime fault,
+   never stuck; the other operations as in C12_no_fault *)
 Theorem C12_addtypes_no_fault :
   forall cfg xs, cfg_wf cfg = true -> forallb (xop_wf cfg) xs = true ->
     Forall2 (fun x r => xout_ok x r = true) xs (xouts cfg xs).
@@ -302,7 +303,9 @@ Definition ex_xs : list xop :=
 Example C12_addtypes_nonvacuous :
   compile ex_auth [ex_set] =
     [INode HL (mkTs ex_auth s_foo [([90;101;100]%N, tzed); ([83;117;98]%N, tsub); ([66;117;115]%N, tbus)]);
+     ICtx (CEnter (HH 0));
      INode (HH 0) (mkTs ex_auth s_foo_sub [([88]%N, tsx)]);
+     ICtx (CEnter (HH 1)); ICtx CLeave; ICtx CLeave;
      IUnless HL (mkTn ex_auth ns_type s_foo_zed) [ASet HL (mkTn ex_auth ns_type s_foo_zed) tzed];
      IUnless HL n_sx [ASet HL n_sx tsx; AUnlessSet (HH 1) (mkTn ex_auth ns_alloc s_foo_sub_x) asx;
                       ASet HL (mkTn ex_auth ns_ctor s_foo_sub_x) csx];
@@ -318,9 +321,71 @@ Example C12_addtypes_nonvacuous :
      XA AOk; XR (REntry ENone); XR (RNew 8)] /\
   xresult_after ex_cfg (firstn 4 ex_xs) (XOp (OLoad 2 n_bus)) = XR (RFound None) /\
   xresult_after ex_cfg ex_xs (XAddTypes 2 [ex_set]) = XA AOk /\
-  ~ In (map_key (norm n_bus)) (flat_map instr_keys (firstn 5 (compile ex_auth [ex_set]))).
+  ~ In (map_key (norm n_bus)) (flat_map instr_keys (firstn 9 (compile ex_auth [ex_set]))).
 Proof.
   split; [vm_compute; reflexivity|]. split; [vm_compute; reflexivity|]. split; [vm_compute; reflexivity|].
   split; [vm_compute; reflexivity|]. split; [vm_compute; reflexivity|].
   vm_compute. intros H. repeat (destruct H as [H|H]; [discriminate H|]). exact H.
+Qed.
+
+(* ---------------------------------------------------------------------------------------------- *)
+(* The loader a context holds (Model/LoaderCtx.v): px.Load, Context.Fork and px.AddTypes go through the loader the
+   px.Context holds; DoWithLoader (internal/context.go:91) changes it around the resolution of the members of a type
+   set and puts it back on every way out. *)
+
+(* the calls of every px.AddTypes: DoWithLoader calls are nested, each is left again, every type-set loader is made on
+   top of the loader the context holds at that moment *)
+Theorem C12_addtypes_calls_nested :
+  forall auth ts, track [] (compile auth ts) = Some [].
+Proof. exact compile_track. Qed.
+Print Assumptions C12_addtypes_calls_nested.
+
+(* however px.AddTypes ends (normally, AttemptToRedefine[Type], a member whose resolution is rejected) and whatever
+   the loaders do (any machine `stp`/`addn`): afterwards the context holds the loader L it held before, and the
+   loaders are those of Model/LoaderAdd.v `exec`.  The seeded change C12-m5 (no deferred restore in DoWithLoader)
+   falsifies the first half for a call that ends in CFail. *)
+Theorem C12_addtypes_ctx_restored :
+  forall (S : Type) (stp : S -> op -> S * out) addn len L base s auth ts,
+    let r := ctx_exec stp addn len L base s [] (compile auth ts) in
+    hd L (snd r) = L /\ fst r = exec stp addn len L base s (compile auth ts).
+Proof. exact @ctx_exec_restores. Qed.
+Print Assumptions C12_addtypes_ctx_restored.
+
+(* every history through contexts (px.Load / Fork / px.AddTypes take the loader the context holds): after every
+   operation every context holds the loader it was made for, so the results and the loaders are those of the history
+   through the loaders, to which all theorems above apply *)
+Theorem C12_ctx_fixed :
+  forall cfg xs, crun cfg xs = ((fst (xrun cfg xs), []), xouts cfg xs, map xop_loader xs).
+Proof. exact crun_fixed. Qed.
+Print Assumptions C12_ctx_fixed.
+
+(* Non-vacuity: the type set Zoo {Cage => alias, Sub => {X => Object, Broken => rejected}, Keeper => alias}.  The call
+   makes the type-set loaders of Zoo and of Zoo::Sub (two DoWithLoader calls running) and is rejected; nothing is
+   bound, the context of loader 2 holds loader 2, a later fork of it is parented by loader 2, the names of the set
+   stay unresolvable. *)
+Definition s_zoo : str := [90;111;111]%N.
+Definition s_zoo_cage : str := [90;111;111;58;58;67;97;103;101]%N.
+Definition s_zoo_sub : str := [90;111;111;58;58;83;117;98]%N.
+Definition s_zoo_sub_x : str := [90;111;111;58;58;83;117;98;58;58;88]%N.
+Definition s_zoo_sub_b : str := [90;111;111;58;58;83;117;98;58;58;66]%N.
+Definition ex_bad : mtype :=
+  MSet s_zoo tfoo
+    [([67;97;103;101]%N, MPlain s_zoo_cage tzed);
+     ([83;117;98]%N, MSet s_zoo_sub tsub [([88]%N, MObject s_zoo_sub_x tsx (Some asx) (Some csx)); ([66]%N, MBroken s_zoo_sub_b tbus)])].
+Definition n_cage := mkTn ex_auth ns_type [67;97;103;101]%N.
+
+Example C12_ctx_nonvacuous :
+  firstn 6 (compile ex_auth [ex_bad]) =
+    [INode HL (mkTs ex_auth s_zoo [([67;97;103;101]%N, tzed); ([83;117;98]%N, tsub)]); ICtx (CEnter (HH 0));
+     INode (HH 0) (mkTs ex_auth s_zoo_sub [([88]%N, tsx); ([66]%N, tbus)]); ICtx (CEnter (HH 1)); ICtx CFail; ICtx CLeave] /\
+  forallb (xop_wf ex_cfg) (firstn 3 ex_xs ++ [XAddTypes 2 [ex_bad]]) = true /\
+  (let r := crun ex_cfg (firstn 3 ex_xs ++ [XAddTypes 2 [ex_bad]; XOp (OLoad 2 n_cage); XOp (OFork 2); XOp (ODiscover 6 PAll)]) in
+   snd (fst r) = [XR (RNew 1); XR (RNew 2); XR (RNew 3); XA (AErr EOther); XR (RFound None); XR (RNew 6); XR (RNames [])] /\
+   snd r = [0; 1; 2; 2; 2; 2; 6]) /\
+  (* the machine while the call runs: at the rejection the context holds the type-set loader of Zoo::Sub (loader 5) *)
+  snd (ctx_exec (step ex_cfg) add_node (@length lnode) 2 4 (fst (xrun ex_cfg (firstn 3 ex_xs))) []
+         (firstn 4 (compile ex_auth [ex_bad]))) = [5; 4].
+Proof.
+  split; [vm_compute; reflexivity|]. split; [vm_compute; reflexivity|]. split; [|vm_compute; reflexivity].
+  vm_compute. split; reflexivity.
 Qed.
